@@ -204,7 +204,7 @@ def cases(tier):
     """(storage?, m, unit_trust, regime)"""
     out = [(True, 1, False, "any"), (True, 2, False, "any"), (True, 2, True, "low_bytes"), (False, 2, True, "low_bytes"), (True, 2, True, "grid_small")]
     if tier != "quick":
-        out += [(True, 2, True, "grid"), (True, 3, False, "any"), (True, 3, True, "low_bytes"), (False, 3, True, "low_bytes"), (False, 2, True, "grid"), (True, 3, True, "grid_small")]
+        out += [(True, 2, True, "grid"), (True, 3, False, "any"), (True, 3, True, "low_bytes"), (False, 3, True, "low_bytes"), (False, 2, True, "grid")]
     return out
 
 
